@@ -1,1 +1,14 @@
 import Martian.Props.C04
+open Martian.Props.C04
+#print axioms tunnel_transparent_up
+#print axioms tunnel_transparent_down
+#print axioms nothing_retained_at_quiescence
+#print axioms delivery_only_grows
+#print axioms eof_propagates_to_target
+#print axioms eof_propagates_to_client
+#print axioms no_spurious_eof
+#print axioms dial_failure_502_warning
+#print axioms dial_success_200
+#print axioms both_released_iff_both_finished
+#print axioms legacy_buffered_pump_retains
+#print axioms legacy_buffered_pump_counterexample
